@@ -1,6 +1,6 @@
-\* design run, thorough tier: every text up to length 7
+\* design run, optional (C02_DESIGN_N=8): every text up to length 8, 28.6M states
 CONSTANTS
-  N = 7
+  N = 8
   Bug = "none"
 SPECIFICATION Spec
 INVARIANT Tiling
